@@ -25,7 +25,9 @@ META = {
              "started while another is outstanding; an outstanding timer belongs to the current round and to the step of its kind; "
              "the machine's belief about its timer equals the timer actually outstanding; leaving the step or round cancels it. The "
              "converse (in a timed step => a timer is armed) is refuted by a witness replayed on the code (stale step after a "
-             "committed-header response, same root cause as C08's known finding w1).",
+             "committed-header response, same root cause as C08's known finding w1). "
+             "Monitored on the real state machine: after every event in which the model cancels an outstanding timer the harness closes "
+             "that cancelled timer's channel (a timer firing concurrently with its cancellation): no reaction is allowed.",
     "note": "Partial: Go's select choice, channel close visibility, sync.Mutex and time.Timer semantics are trusted (modelled); "
             "the cancel function is one atomic step (close bracketed by Lock/Unlock); the caller is single threaded; the stress "
             "run samples real schedules, the theorems cover all model schedules. Repo fix f318c13 (cancel checked first in the "
